@@ -215,8 +215,8 @@ def v_is(interp, a, b):
         if is_z3(a) or is_z3(b):
             raise Unsupported('is between bool and symbolic')
         return False
-    from .interp import ClassRef, TypeVal
-    if isinstance(a, (ClassRef, TypeVal)) and isinstance(b, (ClassRef, TypeVal)):
+    from .interp import ClassRef, TypeVal, BuiltinRef
+    if isinstance(a, (ClassRef, TypeVal, BuiltinRef)) and isinstance(b, (ClassRef, TypeVal, BuiltinRef)):
         return a.name == b.name
     if isinstance(a, tuple) and isinstance(b, tuple):
         return a is b
@@ -1034,7 +1034,7 @@ def type_name(interp, v):
         return 'bool'
     if is_int(v):
         return 'int'
-    if is_str(v):
+    if is_str(v) or isinstance(v, UStr):
         return 'str'
     if isinstance(v, PList):
         return 'list'
@@ -1085,6 +1085,15 @@ def isinstance_one(interp, v, t):
 def call_builtin(interp, name, args, kwargs):
     c = ctx()
     f = _BUILTINS.get(name)
+    if f is None and name.startswith('str.') and args:
+        # unbound str method: str.m(x, ...) - for an AnsiStr this is the method of its str payload
+        recv = args[0]
+        if isinstance(recv, PObj) and recv.cls == 'AnsiStr':
+            recv = recv.attrs['__payload__']
+        if is_str(recv) or isinstance(recv, UStr):
+            if isinstance(recv, UStr):
+                return call_method(interp, recv, name[4:], args[1:], kwargs) if name[4:] != '__str__' else recv
+            return str_method(interp, recv, name[4:], args[1:], kwargs)
     if f is None:
         if name in sym.EXC_PARENTS:
             raise Unsupported('exception object as a value')
